@@ -9,6 +9,7 @@ CONSTANTS
   NP = 1
   Limit = 1
   MaxAErr = 0
+  AAMs = {TRUE}
   MaxFail = 0
   MaxAbort = 1
 SPECIFICATION SpecConn
